@@ -208,11 +208,8 @@ func zzSplitCore(method string, ws bool) {
 		args = append(args, k.v)
 		big = zzNot(zzWFits64(k.w))
 		max = int64(k.w.lo)
-		if ws && method == "rsplit" {
-			// rsplitspace preallocates max+1 entries: the engine must concretise the
-			// capacity, and natively 2^24..2^47 entries may or may not be allocatable.
-			zzAssume(zzOr(big, zzOr(max <= int64(n)+3, max >= 1<<47)))
-		}
+		// (rsplitspace used to preallocate max+1 entries, which panicked in makeslice for huge
+		// counts: fixed in /repo, see known_findings.json "fixed"; every count is covered again)
 	}
 	_ = hasMax
 
@@ -220,7 +217,7 @@ func zzSplitCore(method string, ws bool) {
 	var err error
 	panicked := zzCatch(func() { got, err = zzCallMethod(String(s), method, args) })
 	zzObserve("panicked", panicked)
-	zzAssertExcept(zzNot(panicked), "C13.rsplit.huge_maxsplit_no_panic", zzAnd(zzNot(big), max >= 1<<47))
+	zzAssert(zzNot(panicked), "C13.rsplit.huge_maxsplit_no_panic")
 	if panicked {
 		return
 	}
